@@ -192,6 +192,23 @@ pub fn peek_check(s: &str) -> Vec<(&'static str, String)> {
     if !ends_with_error && lexer.next().is_some() {
         return vec![("peek", "stream with interleaved peeks is longer than the plain stream".into())];
     }
+    // look-ahead beyond what is queued: peek(n) for any n, at every position ("peek_n(1) returns the token that will appear
+    // after that, and so forth")
+    let mut lexer = Lexer::new(s);
+    for consumed in 0..plain.len() {
+        let n = (consumed * 7 + 3) % 6;
+        if let Some(expected) = plain.get(consumed + n) {
+            match lexer.peek(n) {
+                Some(p) if p == expected => {}
+                Some(_) => return vec![("peek-far", format!("peek({n}) at position {consumed} differs from the plain stream"))],
+                None => return vec![("peek-far", format!("peek({n}) at position {consumed} returned nothing although the stream continues"))],
+            }
+        }
+        match lexer.next() {
+            Some(t) if t == plain[consumed] => {}
+            _ => return vec![("peek-far", format!("token {consumed} of the stream with far peeks differs from the plain stream"))],
+        }
+    }
     vec![]
 }
 
